@@ -610,6 +610,25 @@ def _exec_loader(case, mon):
                 mon.check(_same_obj(full, delivered[e_next]), "same-seed-epoch-identical", epoch=e_next,
                           how="epoch after an abandoned one", observed=_brief(full),
                           expected=_brief(delivered[e_next]))
+        # ---- another loader object over the SAME directory after its content changed (same number of
+        # utterances, the tensors rotated among the names): length buckets must follow what is on disk now
+        if is_bucket and N >= 3 and len(set(lengths)) > 1 and case["num_workers"] == 0:
+            names = [u["name"] for u in utts]
+            for sub in ("feat", "ali", "ref"):
+                d = os.path.join(root, sub)
+                if not os.path.isdir(d):
+                    continue
+                for nm in names:
+                    os.rename(os.path.join(d, nm + ".pt"), os.path.join(d, nm + ".pt.moving"))
+                for k, nm in enumerate(names):  # name k now holds what name k+1 held
+                    os.rename(os.path.join(d, names[(k + 1) % N] + ".pt.moving"), os.path.join(d, nm + ".pt"))
+            rotated = lengths[1:] + lengths[:1]
+            D2 = mon.lib(name, _make_loader, case, root, e0)
+            b2 = D2.batch_sampler
+            mon.check(type(b2).__name__ == "BucketBatchSampler", "bucket-sampler-in-use", observed=type(b2).__name__,
+                      buckets=nb, note="second loader over the rewritten directory")
+            O.judge_length_buckets(mon, rotated, dict(b2.idx2bucket), dict(b2.bucket2size), case["batch_size"], nb, dyn)
+            mon.stat("history_second_loader_after_directory_rewrite")
         mon.observe("loader_shapes", "%s/N%d/b%d/nb%d/%s%s" % (fam, N, case["batch_size"], nb,
                                                                 "D" if dyn else "", "drop" if case["drop_last"] else ""))
         if most < 2:
